@@ -155,7 +155,11 @@ func (in *inliner) exprText(x ast.Expr) rope {
 	}
 	if id, ok := x.(*ast.Ident); ok && len(in.subst) > 0 {
 		if info := in.infoOf[in.fname(x.Pos())]; info != nil {
-			if r, ok := in.subst[info.Uses[id]]; ok && info.Uses[id] != nil {
+			o := info.Uses[id]
+			if o == nil {
+				o = info.Defs[id]
+			}
+			if r, ok := in.subst[o]; ok && o != nil {
 				return r
 			}
 		}
@@ -1061,6 +1065,31 @@ func (in *inliner) emitSite0(s *inlSite) (rope, bool) {
 				return false
 			}
 		}
+		// literals of exactly the parameter's type, and typed constants of other packages
+		if !mutated[po] {
+			switch t := ast.Unparen(arg).(type) {
+			case *ast.BasicLit:
+				var def types.Type
+				switch t.Kind {
+				case token.INT:
+					def = types.Typ[types.Int]
+				case token.STRING:
+					def = types.Typ[types.String]
+				case token.FLOAT:
+					def = types.Typ[types.Float64]
+				}
+				return def != nil && types.Identical(def, ptype)
+			case *ast.SelectorExpr:
+				if pid, ok := t.X.(*ast.Ident); ok {
+					if _, isPkg := info.Uses[pid].(*types.PkgName); isPkg {
+						if cst, ok := info.Uses[t.Sel].(*types.Const); ok && types.Identical(cst.Type(), ptype) && !declared[pid.Name] {
+							return true
+						}
+						return false
+					}
+				}
+			}
+		}
 		// root identifier and the field objects of a selector path a.b.c
 		x := ast.Unparen(arg)
 		var fields []types.Object
@@ -1623,7 +1652,32 @@ func (in *inliner) emitSite0(s *inlSite) (rope, bool) {
 		}
 		out = append(out, g(" {\n")...)
 	}
-	out = append(out, g("{\n")...)
+	// braces are needed only when the expansion declares something
+	needBlock := len(binds) > 0
+	if ft.Results != nil {
+		for _, f := range ft.Results.List {
+			for _, n := range f.Names {
+				if n.Name != "_" && !unifiedRes[info.Defs[n]] {
+					needBlock = true
+				}
+			}
+		}
+	}
+	for _, st := range body.List {
+		switch t := st.(type) {
+		case *ast.DeclStmt, *ast.LabeledStmt:
+			if _, conv := in.defConv[st]; !conv {
+				needBlock = true
+			}
+		case *ast.AssignStmt:
+			if _, conv := in.defConv[st]; t.Tok == token.DEFINE && !conv {
+				needBlock = true
+			}
+		}
+	}
+	if needBlock {
+		out = append(out, g("{\n")...)
+	}
 	for _, b := range binds {
 		out = append(out, g("var %s %s = ", b.name, b.typ)...)
 		out = append(out, b.val...)
@@ -1662,7 +1716,9 @@ func (in *inliner) emitSite0(s *inlSite) (rope, bool) {
 	} else {
 		out = append(out, in.conv(body.List, lhs, s)...)
 	}
-	out = append(out, g("}\n")...)
+	if needBlock {
+		out = append(out, g("}\n")...)
+	}
 	if len(guard) > 0 {
 		out = append(out, g("}\n")...)
 	}
